@@ -27,7 +27,7 @@ func c09TreeGen(r *verifh.Rng) []verifh.Section {
 			}
 			return r.PickS(":x", ":y", ":")
 		}
-		return r.PickS("a", "b", "c", "ab")
+		return r.PickS("a", "b", "c", "ab", "a", "b", "A", "Ab", "é")
 	}
 	for i := 0; i < n; i++ {
 		mode := 0
@@ -57,6 +57,21 @@ func c09TreeGen(r *verifh.Rng) []verifh.Section {
 				s = s[:k] + "/" + s[k:]
 			case x < 19:
 				s = s[1:] // not rooted (possibly empty)
+			case x < 22 && d > 0:
+				s += "//" // trailing double slash
+			case x < 24:
+				s = r.PickS("", "//", "///", "/", "a", ":x", "/:x/", "/:x//") // degenerate strings
+			case x < 27 && d > 1:
+				// an empty inner segment (matched only by a :name)
+				k := strings.Index(s[1:], "/") + 1
+				if k > 0 {
+					e := strings.Index(s[k+1:], "/")
+					if e < 0 {
+						s = s[:k+1]
+					} else {
+						s = s[:k+1] + s[k+1+e:]
+					}
+				}
 			}
 			return s
 		}
